@@ -14,6 +14,14 @@ CLAIMS = {
          "of the solver constructor. No bound on inputs or histories; loops by contract / arbitrary-iteration slice."),
    design='6 C04', technique='contract-based deductive verification: own VC generator over the clang AST (heap model, callee contracts, loop-body contracts) + SMT',
    note=NOTE_COMMON + " log/exp uninterpreted; std::remove_if/erase by the standard's specification; two callee frames assumed here and proved under C12."),
+ 'C20': dict(
+   text=("Contracts on the real grid templates as instantiated by the repository: update_dimensions (every point of the declared box, as a free "
+         "variable, is indexable and maps to an existing voxel; voxel count without 32-bit wrap; grid emptied), index functions (formula, range, "
+         "no wrap, no undefined conversion), place_object (multiset frame: only that voxel/object changes), get_voxel_content, and for "
+         "get_neighborhood / get_grid_content a contract on the loop bounds plus a contract on an arbitrary iteration of the loop body; two "
+         "arithmetic lemmas (flattening injective, adjacency under one voxel size). No bound on box, size or contents except < 2^20 voxels per axis."),
+   design='6 C20', technique='contract-based deductive verification: own VC generator over the clang AST (prefix/loop-body contracts, multiset model of forward_list) + SMT with to_int',
+   note=NOTE_COMMON + " The step from 'bounds + arbitrary iteration' to 'every voxel of the block is visited once' is for-loop semantics, stated in the evidence."),
  'C05': dict(
    text=("Contract on the real contact_model_abstract::compute_node_triangle_distance (AST of the current tree, symbolic p,a,b,c): on each of "
          "its 7 return paths the barycentric coordinates sum to 1 and are >= 0, the returned d2 equals |p-q|^2, q satisfies the first-order "
